@@ -98,7 +98,11 @@ def closed_rules(ck, C):
             if blk["term"]["t"] == "switch" and disc_local in T.copy_chain_locals(pe, blk["term"]["on"]):
                 tr_e = [(sw, t) for t, lab in pe.succ_edges(sw) if t not in [x for v, x in blk["term"]["targets"] if v == 0]]
                 others = [i for i, v in rets if i not in rm]
-                if pe.find_path([t for _, t in tr_e], others, removed_blocks=rm) is None and all(pe.find_path([t for _, t in tr_e], [i]) for i in rm):
+                fa_e = [(sw, t) for t, lab in pe.succ_edges(sw) if t in [x for v, x in blk["term"]["targets"] if v == 0]]
+                ok_e2, _, _ = T.result_split(pe, inner[0].bb)
+                starts2 = [x for _, x in ok_e2] or [inner[0].to]
+                # with the flag set (false edges of its test removed) no successful return other than Remove is reachable
+                if pe.find_path(starts2, others, removed_edges=fa_e) is None and all(pe.find_path([t for _, t in tr_e], [i]) for i in rm):
                     ok = True
     ck.verdict(ok, C, "T4-guarded-by", pe, "disconnected=>Remove", "once Closed was delivered the source returns PostAction::Remove (it never keeps the loop spinning on a dead channel)", "after Closed the channel source does not return Remove: it stays registered with a permanently readable eventfd / delivers Closed again", site=pe.where())
     return cl
@@ -151,6 +155,27 @@ def run(ck):
         for s in local_sends:
             cbd = s.callee_body()
             ck.ok("1", "T2-all-exits", b, "enqueue=>wake:via-%s" % cbd.qual, "delegates to %s, which is checked itself" % cbd.qual, site=b.where(s.bb), nontrivial=False)
+    # a blocking send is preceded by a wake-up (the loop must be draining for a rendezvous / full channel to make
+    # progress), and a Full answer of try_send still wakes the loop
+    ss = ck.body_by_path("sources::channel::SyncSender::<T>::send")
+    if ss is not None:
+        blocking = [cs for cs in ss.calls() if cs.f and cs.f["path"] == "std::sync::mpsc::SyncSender::<T>::send" and not ss.is_cleanup(cs.bb)]
+        wake_before = [cs.bb for cs in pings_in(ss)] + [cs.bb for cs in ss.calls() if cs.callee_body() is not None and cs.callee_body().path == "sources::channel::SyncSender::<T>::try_send"]
+        for cs in blocking:
+            ck.verdict(T.t3_dominated_by_any(ss, cs.bb, wake_before), "1", "T3-must-precede", ss, "wake-before-blocking-send", "the blocking send is preceded by a wake-up of the loop (through try_send, which pings when the queue is full)", "SyncSender::send can block without having woken the loop first: with sync_channel(0) the sender and the loop wait for each other for ever", site=ss.where(cs.bb))
+    ts = ck.body_by_path("sources::channel::SyncSender::<T>::try_send")
+    if ts is not None:
+        m = [cs for cs in ts.calls() if cs.f and cs.f["path"] == "std::sync::mpsc::SyncSender::<T>::try_send" and not ts.is_cleanup(cs.bb)]
+        pg = pings_in(ts)
+        for cs in m:
+            ok_e, err_e, _ = T.result_split(ts, cs.bb)
+            full = []
+            for sw in T.switches_on_expr(ts, lambda e: e[0] == "discr"):
+                e = ts.expr(ts.blocks[sw]["term"]["on"])
+                if any(r == ("call", cs.bb) and p == (" as Err", ".0") for r, p in ts.resolve(e[2])):
+                    full += T.discr_edges(ts, sw, 0)  # TrySendError::Full = 0
+            bad = T.t2_all_exits(ts, [x for _, x in full], [p.bb for p in pg]) if full and pg else ([0] if not pg else None)
+            ck.verdict(bool(full) and bad is None, "1", "T2-all-exits", ts, "Full=>wake", "a full queue still wakes the loop (so that it drains and the sender can make progress)", "try_send does not wake the loop when the queue is full", site=ts.where(cs.bb))
     ck.floor("1", "channel sender wake/enqueue instances", n1, 6)
 
     # ---- clause 2: drop order -----------------------------------------------------------------------------------
@@ -188,3 +213,7 @@ def run(ck):
     from props import C02
 
     common.import_results(ck, C02, "4", "Channel", "4")
+
+    # ---- clause 5: shared necessary conditions of a ping-backed, loop-dispatched source -------------------------
+    common.ping_infra(ck, "5")
+    common.dispatch_infra(ck, "5")
